@@ -8,6 +8,7 @@ set_option linter.unusedSectionVars false
 namespace H2V.Lemmas.ConnResetP
 open H2V H2V.Model H2V.Model.Conn
 
+set_option allowUnsafeReducibility true in
 attribute [local reducible] Streams.stream Store.getD'
 
 section
